@@ -23,20 +23,20 @@ def known_rules(prop):
 # Scenario families per property: (family, quick count, thorough count).  Every property has
 # families in which no recorded finding can fire (n <= q, no late queueing, no fault) next to
 # the ones in which the findings live.
-SAFE = [("base", 150, 3000), ("pop", 60, 1500), ("queue", 60, 1500), ("stop", 60, 1500), ("stoppop", 80, 1500), ("manual", 40, 800), ("none", 30, 500)]
-FIND = [("nq", 60, 1200), ("latequeue", 40, 800), ("fault", 60, 1200)]
+SAFE = [("base", 150, 3000), ("pop", 60, 1500), ("queue", 60, 1500), ("stop", 60, 1500), ("stoppop", 80, 1500), ("manual", 40, 800), ("none", 30, 500), ("narrow", 60, 1000)]
+FIND = [("nq", 60, 1200), ("latequeue", 40, 800), ("fault", 60, 1200), ("latefault", 40, 800)]
 
 SCHED_PLANS = {
-    "C01": SAFE + FIND,
+    "C01": SAFE + FIND + [("delay", 40, 800)],
     "C02": SAFE + FIND,
     "C03": [("base", 200, 4000), ("tall", 30, 400), ("tail", 150, 3000), ("pop", 80, 1500), ("queue", 60, 1500), ("nq", 40, 800)],
-    "C05": [("fault", 100, 2000), ("base", 200, 4000), ("pop", 80, 1500), ("queue", 80, 1500), ("stop", 40, 1000), ("nq", 60, 1200)],
-    "C06": [("base", 250, 5000), ("pop", 100, 2000), ("queue", 80, 1500), ("stop", 40, 800)],
+    "C05": [("delay", 40, 800), ("fault", 100, 2000), ("base", 200, 4000), ("pop", 80, 1500), ("queue", 80, 1500), ("stop", 40, 1000), ("nq", 60, 1200)],
+    "C06": [("prio", 150, 3000), ("base", 250, 5000), ("pop", 100, 2000), ("queue", 80, 1500), ("stop", 40, 800)],
     "C11": SAFE,
-    "C12": [("base", 250, 5000), ("pop", 60, 1000), ("queue", 60, 1000), ("stop", 40, 800), ("nq", 40, 800)],
+    "C12": [("narrow", 80, 1500), ("base", 250, 5000), ("pop", 60, 1000), ("queue", 60, 1000), ("stop", 40, 800), ("nq", 40, 800)],
     "C13": [("base", 250, 5000), ("tail", 150, 3000), ("pop", 60, 1000), ("stop", 60, 1500), ("manual", 40, 800)],
     "C14": [("stop", 250, 5000), ("stoppop", 80, 1500), ("stop@free", 150, 3000), ("base@free", 50, 1000), ("manual", 60, 1000), ("none", 60, 1000), ("base", 60, 1000)],
-    "C15": [("fault", 250, 5000), ("base", 40, 500)],
+    "C15": [("fault", 250, 5000), ("latefault", 80, 1500), ("base", 40, 500)],
     "C16": SAFE + FIND,
     "C17": [("queue", 250, 5000), ("manualqueue", 100, 2000), ("latequeue", 80, 1500), ("pop", 40, 800)],
     "C18": [("pop", 300, 6000), ("tall", 40, 600), ("base", 60, 1000)],
@@ -285,6 +285,10 @@ def term_part(prop, tier, seed):
         binary = core.build_harness(wd)
         fams = [("pop", 150, 3000), ("base", 80, 1500), ("queue", 40, 800)] if prop == "C18" else [("base", 100, 2000), ("pop", 100, 2000), ("queue", 40, 800)]
         scs = gen.batch(seed + 7, [(f, q if tier == "quick" else t) for f, q, t in fams])
+        for sc_ in scs:
+            for prog_ in sc_["clients"]:
+                for o_ in prog_:
+                    o_.pop("chunks", None)   # the screen oracle works on whole lines (a half line with a row behind it is C13's business)
         scen = {s["id"]: s for s in scs}
         traces = core.run_scenarios(binary, wd, scs)
         evs = term.term_events(traces, scen)
@@ -351,11 +355,11 @@ CORE_CFGS = {   # property -> (quick configs, thorough configs) of MPBCore.tla
     "C02": (["q0", "sync2q0", "priorm"], ["q0", "shut", "two", "sync2q0", "sync2q1", "priorm", "priopop"]),
     "C03": (["write", "rm"], ["write", "rm", "drop", "two"]),
     "C05": (["rm", "queue"], ["rm", "drop", "queue", "pop", "mixed2", "sync2q0"]),
-    "C06": (["prio", "priorm"], ["prio", "priolazy", "queue", "pop", "priorm", "priopop"]),
+    "C06": (["prio", "priorm"], ["prio", "priolazy", "priolazyimm", "queue", "pop", "priorm", "priopop"]),
     "C15": (["fault1", "faultsync"], ["fault1", "fault2", "faultsync"]),
     "C12": (["drop", "mixed2"], ["sync2", "mixed2", "drop", "three", "pop3"]),
     "C13": (["write"], ["write", "two"]),
-    "C14": (["none", "manual"], ["shut", "none", "manual", "manualsync"]),
+    "C14": (["none", "manual", "listen"], ["shut", "none", "manual", "manualsync", "listen", "listenshut"]),
     "C16": (["q0", "rm", "faultsync"], ["q0", "rm", "drop", "queue", "pop", "write", "shut", "sync2", "fault1", "faultsync"]),
     "C17": (["queue"], ["queue"]),
     "C18": (["pop"], ["pop", "pop3"]),
